@@ -76,40 +76,66 @@ def step_of(path):
     return (int(m.group(1)), int(m.group(2))) if m else None
 
 
-class OsProxy:
-    """the script module's `os`: `makedirs` creates one level per atomic action"""
-
-    def __init__(self, tick):
-        self._tick = tick
-
-    def __getattr__(self, k):
-        return getattr(os, k)
-
-    def makedirs(self, path, mode=0o777, exist_ok=False):
-        missing = []
-        p = os.path.abspath(path)
-        while not os.path.isdir(p):
-            missing.append(p)
-            p = os.path.dirname(p)
-        for q in reversed(missing):
-            self._tick("script:mkdir:" + "/".join(q.split(os.sep)[-2:]))
-            os.mkdir(q)
-        if not missing and not exist_ok:
-            raise FileExistsError(path)
+def _fd_path(name, dir_fd):
+    if dir_fd is None:
+        return os.path.abspath(name)
+    return os.path.join(os.readlink("/proc/self/fd/%d" % dir_fd), name)
 
 
-class ShutilProxy:
-    def __init__(self, tick, on_rmtree):
-        self._tick, self._on = tick, on_rmtree
+class FsPatch:
+    """the script's filesystem mutations are observed at the level of os.mkdir / os.unlink / os.rmdir (whatever helper the
+    script calls them through); each one that is going to succeed is an atomic action.  Not counted while the pipeline
+    emulator runs (it announces its own actions)."""
 
-    def __getattr__(self, k):
-        return getattr(shutil, k)
+    def __init__(self, sim):
+        self.sim = sim
+        self.real = (os.mkdir, os.unlink, os.rmdir)
 
-    def rmtree(self, path, ignore_errors=False, **kw):
-        if os.path.lexists(path):
-            self._tick("script:rmtree")
-            self._on(path)
-        return shutil.rmtree(path, ignore_errors=ignore_errors, **kw)
+    def __enter__(self):
+        sim = self.sim
+        r_mkdir, r_unlink, r_rmdir = self.real
+
+        def on():
+            return sim.active and not sim.in_pipeline
+
+        def mkdir(path, *a, **kw):
+            if on():
+                full = _fd_path(path, kw.get("dir_fd"))
+                if not os.path.lexists(full):
+                    sim.tick("script:mkdir:" + "/".join(full.split(os.sep)[-2:]))
+            return r_mkdir(path, *a, **kw)
+
+        def unlink(path, *a, **kw):
+            if on():
+                full = _fd_path(path, kw.get("dir_fd"))
+                if os.path.lexists(full):
+                    sim.tick("script:unlink")
+                    sim.removed.append(os.path.relpath(full, sim.outdir))
+            return r_unlink(path, *a, **kw)
+
+        def rmdir(path, *a, **kw):
+            if on():
+                full = _fd_path(path, kw.get("dir_fd"))
+                if os.path.isdir(full) and not os.listdir(full):
+                    sim.tick("script:rmdir")
+                    sim.removed.append(os.path.relpath(full, sim.outdir))
+            return r_rmdir(path, *a, **kw)
+
+        os.mkdir, os.unlink, os.rmdir = mkdir, unlink, rmdir
+        self.new = (mkdir, unlink, rmdir)
+        self.added = []
+        for st in (os.supports_dir_fd, os.supports_follow_symlinks, os.supports_fd):
+            for real, new in zip(self.real, self.new):
+                if real in st:
+                    st.add(new)
+                    self.added.append((st, new))
+        return self
+
+    def __exit__(self, *exc):
+        os.mkdir, os.unlink, os.rmdir = self.real
+        for st, new in self.added:
+            st.discard(new)
+        return False
 
 
 def load_script():
@@ -138,12 +164,13 @@ class Sim:
         self.count = 0
         self.limit = None
         self.active = False
+        self.in_pipeline = False
         self.named = []           # directories the script named (and the harness removed)
         self.removed = []         # existing directories the script's own rmtree removed
         self.status = None
         self.invocations = 0
         score_args = ["--scorer", cfg["scorer"]] + (["--seed", "12"] if cfg["scorer"] == "GaussianDBALScorer" else [])
-        self.emu = nf_emulator.NfEmulator({"score_args": score_args, "schedule_seed": cfg["sched"],
+        self.emu = nf_emulator.NfEmulator({"score_args": score_args, "schedule_seed": cfg["sched"], "late_eval": bool(cfg.get("late_eval")),
                                            "prepare_args": ["--plate-generator", "PlatePermutationPlateGenerator",
                                                             "--holdout-fraction", "0.2", "--seed", str(cfg["data_seed"])]},
                                           tick=self.tick, repo=common.REPO)
@@ -156,11 +183,21 @@ class Sim:
         self.count += 1
         self.labels.append(label)
 
+    def pipeline(self, cmd, cwd=None, **kw):
+        self.in_pipeline = True
+        try:
+            return self.emu.check_call(cmd, cwd=cwd)
+        finally:
+            self.in_pipeline = False
+
     def go(self):
+        with FsPatch(self):
+            return self._go()
+
+    def _go(self):
         mod = load_script()
-        mod.subprocess = types.SimpleNamespace(check_call=self.emu.check_call)
-        mod.os = OsProxy(self.tick)
-        mod.shutil = ShutilProxy(self.tick, lambda p: self.removed.append(os.path.relpath(p, self.outdir)))
+        # the only thing replaced inside the script module: the process launcher (nextflow is not installed)
+        mod.subprocess = types.SimpleNamespace(check_call=self.pipeline)
         B = self.cfg["B"]
         pending = list(self.crashes)
         self.limit = pending.pop(0) if pending else None
@@ -399,11 +436,13 @@ def pick_points(labels, B, rng, k):
     later = lambda l: not l.startswith("iter_0/plate_0:") and not l.startswith("script:")      # noqa: E731
     first(lambda l: B >= 3 and STEP_RE.match(l) and int(STEP_RE.match(l).group(2)) >= 2 and l.endswith("publish:advanced_screen.h5"))   # plate index 2
     first(lambda l: B >= 2 and STEP_RE.match(l) and int(STEP_RE.match(l).group(2)) >= 1 and l.endswith("publish:advanced_screen.h5"))   # selected_plate published, nothing after it
+    # after the marker, while EVALUATE_MODEL (not upstream of it) is still running / unpublished: the step is complete
+    first(lambda l: ("EVALUATE_MODEL" in l or l.endswith("publish:model_evaluation.h5")) and any(
+        m == l.split(":")[0] + ":publish:screen_metadata.json" for m in labels[:labels.index(l)]))
     first(lambda l: l.startswith("script:mkdir:iter_1/"))                                        # between the two mkdirs of iteration 1
     first(lambda l: later(l) and l.endswith("publish:screen_metadata.json"))                     # everything but the marker
     first(lambda l: later(l) and ":publish:thetas_1" in l)                                       # between two published chains
     first(lambda l: later(l) and ":start:REVEAL_PLATE" in l)
-    first(lambda l: l.endswith("publish:model_evaluation.h5") and any(m.endswith("publish:screen_metadata.json") and m.split(":")[0] == l.split(":")[0] for m in labels[:labels.index(l)]))
     while len(want) < k and len(want) < n:
         i = rng.randrange(n)
         if i not in want:
@@ -430,6 +469,8 @@ def explore(cfg, n_single, n_double, rng, workdir):
             f, s = judge(run)
             f = f + compare(run, ref, sref, s)
             cl = ["system.interruptions-%d" % len(crashes)]
+            if any(r["completed"] and not r["all_done"] for r in run.emu.launches):
+                cl.append("system.interrupted-after-marker-before-model-evaluation")
             if run.named:
                 cl.append("system.named-directory-removed")
             hit = labels[crashes[0]] if crashes[0] < len(labels) else "?"
@@ -446,13 +487,14 @@ def sims(ctx):
     if quick:
         s = ctx.seed
         return [({"B": 2, "plates": 5, "scorer": "RandomScorer", "data_seed": s, "sched": s}, 2, 1),
-                ({"B": 3, "plates": 6, "scorer": "GaussianDBALScorer", "data_seed": s + 1, "sched": s + 1}, 2, 0)]
+                ({"B": 3, "plates": 6, "scorer": "GaussianDBALScorer", "data_seed": s + 1, "sched": s + 1, "late_eval": True}, 3, 0)]
     out = []
     k = 0
     for B in (1, 2, 3):
         for plates in (4, 5, 6, 7):
             scorer = ("RandomScorer", "SizeScorer", "GaussianDBALScorer")[k % 3]
-            out.append(({"B": B, "plates": plates, "scorer": scorer, "data_seed": rng.randrange(10 ** 6), "sched": rng.randrange(10 ** 6)}, 5, 2))
+            out.append(({"B": B, "plates": plates, "scorer": scorer, "data_seed": rng.randrange(10 ** 6), "sched": rng.randrange(10 ** 6),
+                         "late_eval": k % 2 == 0}, 5, 2))
             k += 1
     for B, plates, scorer in ((3, 7, "GaussianDBALScorer"), (2, 6, "GaussianDBALScorer"), (1, 5, "GaussianDBALScorer"), (3, 5, "SizeScorer"),
                               (2, 7, "RandomScorer"), (3, 6, "RandomScorer"), (1, 7, "SizeScorer"), (2, 4, "GaussianDBALScorer")):
